@@ -18,8 +18,10 @@ func bg(ctx context.Context) context.Context {
 	return ctx
 }
 
-func (n NilCtxStorage) Lock(ctx context.Context, name string) error   { return n.S.Lock(bg(ctx), name) }
-func (n NilCtxStorage) Unlock(ctx context.Context, name string) error { return n.S.Unlock(bg(ctx), name) }
+func (n NilCtxStorage) Lock(ctx context.Context, name string) error { return n.S.Lock(bg(ctx), name) }
+func (n NilCtxStorage) Unlock(ctx context.Context, name string) error {
+	return n.S.Unlock(bg(ctx), name)
+}
 func (n NilCtxStorage) Store(ctx context.Context, key string, value []byte) error {
 	return n.S.Store(bg(ctx), key, value)
 }
